@@ -43,8 +43,63 @@ def engine_part(res, st, tier, work):
     return [f for f in c03.conv_cases(res, st, tier, work) if f["signature"] == "convert-panics"]
 
 
+def checked_part(res, st, tier, work):
+    """the same histories and conversions once more on a build of the implementation WITH overflow checks and debug
+    assertions (the profile `cargo test` runs in): an arithmetic overflow is a panic there and a silent wrap in the
+    release build - either way the two traces differ, and the case is the failing input"""
+    import glob
+    from .common import harness_path, sh, stage_cargo
+    fails = []
+    if not st.get("cargo"):
+        return fails
+    ok, out, dt = stage_cargo("ed", debug=True)
+    res.notes["checked_build_s"] = round(dt, 1)
+    if not ok:
+        st["broken"].append({"obligation": "harness-build-with-overflow-checks", "detail": out[-3000:]})
+        return fails
+    dbg = harness_path("ed", debug=True)
+    histories = ops = 0
+    for t in sorted(glob.glob(os.path.join(work, "*.impl"))):
+        name = os.path.basename(t)
+        if name.startswith(("shrink", "shrunk", "one", "conv", "checked")):
+            continue
+        td = os.path.join(work, "checked-" + name)
+        rc, o, _ = sh([dbg, "run", t, td], timeout=3000)
+        if rc != 0:
+            fails.append({"signature": "checked-build-run-dies", "detail": o[-1500:], "case_lines": edcommon.case_input_lines(open(t, encoding="utf-8").read().splitlines())[:400]})
+            continue
+        rel = dict(edcommon.split_cases(t))
+        for n, lines in edcommon.split_cases(td):
+            histories += 1
+            ops += sum(1 for l in lines if l.startswith("OP "))
+            a, b = lines, rel.get(n, [])
+            if a != b:
+                k = next((i for i in range(min(len(a), len(b))) if a[i] != b[i]), min(len(a), len(b)))
+                fails.append({"signature": "panics-or-differs-with-overflow-checks", "case_lines": edcommon.case_input_lines(lines),
+                              "detail": "checked build: %s | release build: %s" % ((a[k] if k < len(a) else "<end>")[:300], (b[k] if k < len(b) else "<end>")[:300])})
+                break
+    # the direct engine runs (same seed, same generated compositions)
+    ti = os.path.join(work, "conv.impl")
+    if os.path.exists(ti):
+        td = os.path.join(work, "checked-conv.impl")
+        rc, o, _ = sh([dbg, "conv", tier, td], timeout=3000)
+        if rc == 0:
+            rel = dict(edcommon.split_cases(ti))
+            for n, lines in edcommon.split_cases(td):
+                if lines != rel.get(n):
+                    bad = [l for l in lines if l not in rel.get(n, [])]
+                    fails.append({"signature": "convert-panics-or-differs-with-overflow-checks", "case_lines": [l for l in lines if not l.startswith("ALT ")],
+                                  "detail": (bad[0] if bad else "fewer lines")[:300]})
+                    break
+        else:
+            st["broken"].append({"obligation": "conv-cases-run-with-overflow-checks", "detail": o[-2000:]})
+    res.notes["checked_build"] = {"histories": histories, "ops": ops, "profile": "dev: opt-level 1, overflow-checks, debug-assertions"}
+    res.coverage["evaluations"] += ops
+    return fails
+
+
 def both_parts(res, st, tier, work):
-    return engine_part(res, st, tier, work) + capi_part(res, st, tier, work)
+    return engine_part(res, st, tier, work) + checked_part(res, st, tier, work) + capi_part(res, st, tier, work)
 
 
 def run(tier):
